@@ -33,6 +33,7 @@ type c06Prog struct {
 	Policy  string       `json:"policy"` // none | writer | payload | hash
 	PolArg  int          `json:"polarg"`
 	Deny    bool         `json:"denyAppend"` // also try an append the policy denies
+	Conc    int          `json:"conc"`       // LogOptions.Concurrency of the destination (0 = default)
 }
 
 var c06Kinds = []string{"sig-removed", "key-removed", "sig-other-entry", "sig-flip", "payload-changed", "foreign-key", "foreign-logid", "next-changed", "time-changed"}
@@ -50,6 +51,7 @@ func genC06(t *rapid.T) c06Prog {
 	p.Policy = rapid.SampledFrom([]string{"none", "none", "writer", "payload", "hash"}).Draw(t, "policy")
 	p.PolArg = rapid.IntRange(0, 1<<12).Draw(t, "polarg")
 	p.Deny = rapid.Bool().Draw(t, "denyAppend")
+	p.Conc = rapid.SampledFrom([]int{0, 0, 1, 2, 3, 4, 5, 7}).Draw(t, "conc")
 	return p
 }
 
@@ -154,7 +156,7 @@ func runC06(tb ev.TB, p c06Prog) ev.Result {
 	// destination: a fresh log that holds exactly dst's entries, with the generated policy
 	dstRep := w.Reps[di]
 	dst, err := world.NewLog(w.Store.API(), dstRep.Writer, sim.LogID, w.Order, w.IO, &ipfslog.LogOptions{
-		Entries: dstRep.Log.GetEntries(), Heads: dstRep.Log.Heads().Slice(), AccessController: pol,
+		Entries: dstRep.Log.GetEntries(), Heads: dstRep.Log.Heads().Slice(), AccessController: pol, Concurrency: uint(p.Conc),
 		Clock: entry.NewLamportClock(dstRep.Log.Clock.GetID(), dstRep.Log.Clock.GetTime()),
 	})
 	if err != nil {
